@@ -1140,7 +1140,7 @@ fn run_one(case: &Case, ct: Ct, fails: &mut Vec<Fail>, obs: &mut Obs) -> Result<
         }
         Src::Json(jnode) => {
             let value = jnode.json();
-            let deser = ViewDeserializer::new(None, None);
+            let deser = ViewDeserializer::new(None, Some(std::sync::Arc::new(crate::mockterm::FlipCache::new())));
             let res = guard_val(|| (&deser).deserialize(value.clone()))
                 .map_err(|f| with_case(f, &format!("deserialising {value}")))?;
             match res {
